@@ -220,17 +220,17 @@ pub fn singular_query_segments(rule: Pair<Rule>) -> Parsed<Vec<SingularQuerySegm
         match r.as_rule() {
             Rule::name_segment => {
                 segments.push(SingularQuerySegment::Name(
-                    next_down(r)?.as_str().trim().to_string(),
+                    validate_js_str(next_down(r)?.as_str().trim())?.to_string(),
                 ));
             }
             Rule::index_segment => {
-                segments.push(SingularQuerySegment::Index(
+                segments.push(SingularQuerySegment::Index(validate_range(
                     next_down(r)?
                         .as_str()
                         .trim()
                         .parse::<i64>()
                         .map_err(|e| (e, "int"))?,
-                ));
+                )?));
             }
             _ => return Err(r.into()),
         }
